@@ -89,6 +89,11 @@ def any_deck(draw, tier='quick'):
         # card (a shared material library): whatever the converter does with
         # the card, what it writes must be complete
         deck['materials'] = []
+        if deck.get('transforms') and draw(st.booleans()):
+            # ... and so do the TR cards
+            deck['transforms'] = []
+            case['labels'] = sorted(set(case['labels'])
+                                    | {'tr-cards-through-read-card'})
         deck['extra_data'] = list(deck.get('extra_data') or []) + [
             draw(st.sampled_from(['read file=materials.inc noecho',
                                   'read file=materials.inc',
